@@ -61,6 +61,8 @@ olareg serve --gc-frequency -1
 # run an HTTPS server
 olareg serve --tls-cert host.pem --tls-key host.key --port 443
 `,
+		// a stray word is an error, it is often the value of a boolean flag that was not attached with "="
+		Args: cobra.NoArgs,
 		RunE: opts.run,
 	}
 	newCmd.Flags().StringVar(&opts.addr, "addr", "", "listener interface or address")
